@@ -85,6 +85,23 @@ func LoadProgram(repoDir string, patterns []string, contractsDir string) (*Progr
 	if len(pkgs) > 0 {
 		P.Fset = pkgs[0].Fset
 	}
+	{
+		paths := map[string]map[string]bool{}
+		for _, ap := range prog.AllPackages() {
+			if ap.Pkg == nil {
+				continue
+			}
+			if paths[ap.Pkg.Name()] == nil {
+				paths[ap.Pkg.Name()] = map[string]bool{}
+			}
+			paths[ap.Pkg.Name()][ap.Pkg.Path()] = true
+		}
+		for name, ps := range paths {
+			if len(ps) > 1 {
+				ambiguousPkgNames[name] = true
+			}
+		}
+	}
 	for i, sp := range spkgs {
 		if sp == nil {
 			continue
